@@ -318,6 +318,18 @@ def strip_wrappers(e: ast.expr, wrappers: Iterable[str]) -> ast.expr:
     return e
 
 
+def uncopy(e: Optional[ast.expr]) -> Optional[ast.expr]:
+    """x for np.copy(x), np.array(x), x.copy(), x.astype(float)"""
+    while e is not None:
+        if isinstance(e, ast.Call) and dotted(e.func) in ("np.copy", "np.array", "copy.copy", "copy.deepcopy") and e.args:
+            e = e.args[0]
+        elif isinstance(e, ast.Call) and isinstance(e.func, ast.Attribute) and e.func.attr in ("copy", "astype"):
+            e = e.func.value
+        else:
+            break
+    return e
+
+
 # --------------------------------------------------------------- obligations
 @dataclass
 class Ob:
